@@ -94,10 +94,68 @@ func fatal2(format string, a ...any) {
 func execRun(chk Check, c *Ctx) (v *Violation, perr error) {
 	defer func() {
 		if r := recover(); r != nil {
-			perr = fmt.Errorf("panic in run %d: %v\n%s", c.Run, r, debug.Stack())
+			st := string(debug.Stack())
+			if fr := repoFrameFirst(st); fr != "" {
+				// the repository's own code panicked while the harness called it: that is behaviour
+				// of the system under test, not of the machinery
+				v = &Violation{Class: chk.ID() + "/panic-in-repository-code", Detail: fmt.Sprintf("%v (in %s)", r, fr)}
+				return
+			}
+			perr = fmt.Errorf("panic in run %d: %v\n%s", c.Run, r, st)
 		}
 	}()
 	return chk.Run(c), nil
+}
+
+// repoFrameFirst scans a Go stack trace from the top and returns the first repository frame if
+// one occurs before any harness frame ("" otherwise). Frames of the runtime, the standard
+// library and third-party libraries are skipped.
+func repoFrameFirst(stack string) string {
+	for _, ln := range strings.Split(stack, "\n") {
+		if strings.HasPrefix(ln, "\t") || ln == "" {
+			continue
+		}
+		switch {
+		case strings.HasPrefix(ln, "worldcoin/gnark-mbu/simyield"):
+			continue
+		case strings.HasPrefix(ln, "worldcoin/gnark-mbu/"), strings.HasPrefix(ln, "main."):
+			if i := strings.IndexByte(ln, '('); i > 0 {
+				return ln[:i]
+			}
+			return ln
+		case strings.HasPrefix(ln, "verifsim/"):
+			if strings.HasPrefix(ln, "verifsim/engine.execRun") {
+				continue
+			}
+			return ""
+		}
+	}
+	return ""
+}
+
+// crashInfo extracts the panic message and the deciding repository frame from the output of
+// a process that died.
+func crashInfo(out string) (msg, frame string) {
+	i := strings.Index(out, "panic: ")
+	j := strings.Index(out, "fatal error: ")
+	if i < 0 || (j >= 0 && j < i) {
+		i = j
+	}
+	if i < 0 {
+		return "", ""
+	}
+	rest := out[i:]
+	msg = rest
+	if k := strings.IndexByte(rest, '\n'); k >= 0 {
+		msg = rest[:k]
+	}
+	// only the first goroutine's stack (the one that panicked)
+	if k := strings.Index(rest, "\n\ngoroutine "); k >= 0 {
+		if k2 := strings.Index(rest[k+2:], "\n\n"); k2 >= 0 {
+			rest = rest[:k+2+k2]
+		}
+	}
+	return msg, repoFrameFirst(rest)
 }
 
 // Main is the entry point shared by all properties.
@@ -196,6 +254,9 @@ func workerMain(chk Check, o *Options) int {
 			defer wg.Done()
 			defer func() { <-sem }()
 			c := &Ctx{T: tape.New(o.Seed, uint64(i)), S: out.Stats, Log: &EvLog{}, Tier: o.Tier, Seed: o.Seed, Run: uint64(i)}
+			if p.PerWorkerParallel == 1 {
+				os.WriteFile(o.Out+".cur", []byte(strconv.Itoa(i)), 0o644)
+			}
 			v, err := execRun(chk, c)
 			mu.Lock()
 			defer mu.Unlock()
@@ -247,9 +308,10 @@ func coordinatorMain(chk Check, o *Options) int {
 	defer os.RemoveAll(tmp)
 	self, _ := os.Executable()
 	type wres struct {
-		out *WorkerOut
-		err error
-		log string
+		out     *WorkerOut
+		err     error
+		log     string
+		fullLog string
 	}
 	res := make([]wres, p.Workers)
 	var wg sync.WaitGroup
@@ -275,7 +337,7 @@ func coordinatorMain(chk Check, o *Options) int {
 			cmd.Stdout = &eb
 			cmd.Env = os.Environ()
 			e := cmd.Run()
-			r := wres{err: e, log: tail(eb.String(), 4000)}
+			r := wres{err: e, log: tail(eb.String(), 4000), fullLog: tail(eb.String(), 200000)}
 			if b, rerr := os.ReadFile(outp); rerr == nil {
 				var wo WorkerOut
 				if jerr := json.Unmarshal(b, &wo); jerr == nil {
@@ -289,9 +351,19 @@ func coordinatorMain(chk Check, o *Options) int {
 
 	total := NewStats()
 	runs := 0
-	var found []FoundViolation
+	var found, crashes []FoundViolation
 	hashes := map[string]string{}
 	for w, r := range res {
+		if r.out == nil && r.err != nil {
+			// the worker process died: a crash inside a repository goroutine is a finding, anything else machinery trouble
+			msg, frame := crashInfo(r.fullLog)
+			cur, cerr := os.ReadFile(filepath.Join(tmp, fmt.Sprintf("w%d.json.cur", w)))
+			if frame != "" && cerr == nil {
+				run, _ := strconv.ParseUint(strings.TrimSpace(string(cur)), 10, 64)
+				crashes = append(crashes, FoundViolation{Run: run, V: Violation{Class: id + "/process-crash/" + sanitize(msg), Detail: msg + " in " + frame}})
+				continue
+			}
+		}
 		if r.out == nil || r.err != nil || r.out.Err != "" {
 			msg := ""
 			if r.out != nil {
@@ -374,6 +446,35 @@ func coordinatorMain(chk Check, o *Options) int {
 			violationLines = append(violationLines, fmt.Sprintf("VIOLATION property=%s replay=%s", id, path))
 			fmt.Printf("violation class=%s\n  detail: %s\n  minimised tape %d -> %d draws\n", rf.Violation.Class, rf.Violation.Detail, rf.OrigTape, len(rf.Tape))
 		}
+	}
+
+	crashSeen := map[string]bool{}
+	for _, fv := range crashes {
+		if f := MatchOpen(findings, id, fv.V); f != nil {
+			fmt.Printf("KNOWN-FINDING: property=%s %s\n", id, f.Text)
+			knownSeen[f.Text]++
+			continue
+		}
+		if crashSeen[fv.V.Class] || nviol >= 4 {
+			continue
+		}
+		crashSeen[fv.V.Class] = true
+		rf := &ReplayFile{Property: id, Tier: o.Tier, Seed: o.Seed, Run: fv.Run, Violation: fv.V, Toolchain: runtime.Version(),
+			Worker: int(fv.Run % uint64(p.Workers)), NWorkers: p.Workers, Crash: true, Generate: true}
+		os.MkdirAll(o.ReplayDir, 0o755)
+		path := filepath.Join(o.ReplayDir, fmt.Sprintf("%s-%s-seed%d-run%d.json", id, sanitize(fv.V.Class), o.Seed, fv.Run))
+		if err := writeJSONAtomic(path, rf); err != nil {
+			fatal2("write replay: %v", err)
+		}
+		cmd := exec.Command(self, "-prop", id, "-tier", o.Tier, "-replay", path)
+		outb, _ := cmd.CombinedOutput()
+		if code := cmd.ProcessState.ExitCode(); code != 1 {
+			fmt.Printf("REPLAY-DIVERGED property=%s replay=%s exit=%d\n%s\n", id, path, code, tail(string(outb), 2000))
+			fatal2("fresh-process replay of crash %s did not reproduce it", path)
+		}
+		nviol++
+		violationLines = append(violationLines, fmt.Sprintf("VIOLATION property=%s replay=%s", id, path))
+		fmt.Printf("violation class=%s\n  detail: %s\n  (process crash: replay regenerates run %d from the seed; not minimised)\n", fv.V.Class, fv.V.Detail, fv.Run)
 	}
 
 	wall := time.Since(start).Seconds()
@@ -589,13 +690,41 @@ func replayMain(chk Check, o *Options) int {
 	}
 	o.Tier = rf.Tier
 	o.Seed = rf.Seed
+	if rf.Crash && os.Getenv("SIMCHECK_CRASH_CHILD") == "" {
+		self, _ := os.Executable()
+		cmd := exec.Command(self, "-prop", chk.ID(), "-replay", o.ReplayPath)
+		cmd.Env = append(os.Environ(), "SIMCHECK_CRASH_CHILD=1")
+		outb, _ := cmd.CombinedOutput()
+		msg, frame := crashInfo(string(outb))
+		if frame != "" && chk.ID()+"/process-crash/"+sanitize(msg) == rf.Violation.Class {
+			fmt.Printf("replay: reproduced process crash: %s in %s\n", msg, frame)
+			fmt.Printf("VIOLATION property=%s replay=%s\n", chk.ID(), o.ReplayPath)
+			return 1
+		}
+		fmt.Printf("replay: the process did not crash the same way (exit %d)\n%s\n", cmd.ProcessState.ExitCode(), tail(string(outb), 1500))
+		if cmd.ProcessState.ExitCode() == 0 {
+			return 0
+		}
+		return 3
+	}
 	if rf.NWorkers <= 0 {
 		rf.NWorkers = 1
 	}
 	if err := chk.Init(o.Tier, rf.Worker, rf.NWorkers, o.Seed); err != nil {
 		fatal2("init: %v", err)
 	}
-	v, c := runTape(chk, o, rf.Run, rf.Tape, true)
+	var v *Violation
+	var c *Ctx
+	if rf.Generate {
+		c = &Ctx{T: tape.New(o.Seed, rf.Run), S: NewStats(), Log: &EvLog{}, Tier: o.Tier, Seed: o.Seed, Run: rf.Run, Replay: true}
+		c.Log.Keep(true)
+		var err error
+		if v, err = execRun(chk, c); err != nil {
+			fatal2("%v", err)
+		}
+	} else {
+		v, c = runTape(chk, o, rf.Run, rf.Tape, true)
+	}
 	if o.Trace {
 		for _, l := range c.Log.Lines() {
 			fmt.Println(l)
